@@ -245,7 +245,7 @@ theorem ctx_of (g : Graph) (hw : g.WF) (hr : Rooted g) (refs : List Nat)
 rewriting, exactly as `optimize()` collects the referenced commits first. -/
 theorem optimize_sound (g : Graph) (hw : g.WF) (hr : Rooted g) (e : Expr) (hwf : e.WF g) :
     denote g (refsOf e ++ g.heads) (optimize e) = denoteTop g e :=
-  (optimize_sound' (ctx_of g hw hr (refsOf e) (wf_refsOf_lt g e hwf)) e
+  (optimize_sound_ctx (ctx_of g hw hr (refsOf e) (wf_refsOf_lt g e hwf)) e
     (fun x hx => by simp [hx])).2
 
 /-- each pass separately (for any context `vh` that contains the heads, the root's
